@@ -574,6 +574,9 @@ func (c *VirtualTable) Insert(ctx context.Context, values map[int]interface{}) (
 	if ok && (!old.Deleted || ot.Add(old.DeleteUpdateOffset.AsDuration()).After(t)) {
 		return 0, ErrS3DBConstraintPrimaryKey
 	}
+	if err := c.checkNotNull(values, true); err != nil {
+		return 0, err
+	}
 	new.ColumnValues = make(map[string]*v1proto.ColumnValue)
 	for i, v := range values {
 		if i == c.KeyCol {
@@ -603,6 +606,21 @@ func laterOf(t, ot time.Time) time.Time {
 	return t
 }
 
+// checkNotNull enforces the NOT NULL constraints declared for non-key columns
+// (SQLite does not enforce constraints of virtual tables itself). For an
+// INSERT every column must be non-NULL, for an UPDATE every assigned one.
+func (c *VirtualTable) checkNotNull(values map[int]interface{}, insert bool) error {
+	for i, col := range c.schema.Columns {
+		if !col.NotNull || i == c.KeyCol {
+			continue
+		}
+		if v, assigned := values[i]; (assigned || insert) && v == nil {
+			return ErrS3DBConstraintNotNull
+		}
+	}
+	return nil
+}
+
 func (c *VirtualTable) Update(ctx context.Context, key interface{}, values map[int]interface{}) error {
 	dbg("UPDATE ")
 	if key == nil {
@@ -621,6 +639,9 @@ func (c *VirtualTable) Update(ctx context.Context, key interface{}, values map[i
 	}
 	if !ok || old.Deleted {
 		return nil
+	}
+	if err := c.checkNotNull(values, false); err != nil {
+		return err
 	}
 	// An UPDATE does not change whether the row exists: carry the row's own
 	// insert/delete time so that a DELETE on another writer is not overridden
